@@ -127,9 +127,69 @@ fn dump_graph(g: &DfirGraph) -> Value {
     json!({"nodes": nodes, "edges": edges})
 }
 
+/// IR dump + the production path emit -> FlatGraphBuilder::build -> eliminate -> partition
+fn analyse(ir: &[hydro_lang::compile::ir::HydroRoot]) -> (Value, Vec<Value>, bool, Value) {
+    let ir_json: Value = serialize_dedup_shared(|| serde_json::to_value(ir)).expect("IR serialization");
+    let mut ir2 = deep_clone(ir);
+    let mut locs = Vec::new();
+    let mut all_ok = true;
+    let emitted = std::panic::catch_unwind(std::panic::AssertUnwindSafe(|| emit(&mut ir2)));
+    let mut emit_panic = Value::Null;
+    let emitted = match emitted {
+        Ok(m) => m,
+        Err(e) => {
+            all_ok = false;
+            let msg = if let Some(s) = e.downcast_ref::<&str>() {
+                (*s).to_owned()
+            } else if let Some(s) = e.downcast_ref::<String>() {
+                s.clone()
+            } else {
+                "<non-string panic>".to_owned()
+            };
+            emit_panic = json!(msg);
+            Default::default()
+        }
+    };
+    for (k, b) in emitted {
+        let mut loc = serde_json::Map::new();
+        loc.insert("location".into(), json!(format!("{:?}", k)));
+        match b.build() {
+            Err(diags) => {
+                all_ok = false;
+                loc.insert("build".into(), json!("err"));
+                loc.insert(
+                    "diagnostics".into(),
+                    json!(diags.iter().map(|d| d.to_string()).collect::<Vec<_>>()),
+                );
+            }
+            Ok(FlatGraphBuilderOutput { mut flat_graph, .. }) => {
+                loc.insert("build".into(), json!("ok"));
+                loc.insert("flat".into(), dump_graph(&flat_graph));
+                eliminate_extra_unions_tees(&mut flat_graph);
+                loc.insert("flat_elim".into(), dump_graph(&flat_graph));
+                match partition_graph(flat_graph) {
+                    Ok(pg) => {
+                        loc.insert("partition".into(), json!("ok"));
+                        loc.insert("subgraphs".into(), json!(pg.subgraph_ids().count()));
+                    }
+                    Err(e) => {
+                        all_ok = false;
+                        loc.insert("partition".into(), json!("err"));
+                        loc.insert("diagnostic".into(), json!(e.diagnostic.to_string()));
+                    }
+                }
+            }
+        }
+        locs.push(Value::Object(loc));
+    }
+    std::mem::forget(ir2);
+    (ir_json, locs, all_ok, emit_panic)
+}
+
 fn main() {
     println!("cargo::rerun-if-changed=build.rs");
     println!("cargo::rerun-if-changed=flows_table.rs");
+    println!("cargo::rerun-if-changed=net_flows_table.rs");
     let out_dir = std::env::var("OUT_DIR").unwrap();
     std::panic::set_hook(Box::new(|_| {}));
     let mut dumps: Vec<(String, String)> = Vec::new();
@@ -147,58 +207,7 @@ fn main() {
                 let process = flow.process::<()>();
                 h_hydro_b_flows::$name( $( process.embedded_input::<$it>(stringify!($i)) ),* );
                 let built = flow.finalize();
-                let ir_json: Value = serialize_dedup_shared(|| serde_json::to_value(built.ir()))
-                    .expect("IR serialization");
-                // the production path: emit -> FlatGraphBuilder::build -> eliminate -> partition
-                let mut ir2 = deep_clone(built.ir());
-                let mut locs = Vec::new();
-                let mut all_ok = true;
-                let emitted = std::panic::catch_unwind(std::panic::AssertUnwindSafe(|| emit(&mut ir2)));
-                let mut emit_panic = Value::Null;
-                let emitted = match emitted {
-                    Ok(m) => m,
-                    Err(e) => {
-                        all_ok = false;
-                        let msg = if let Some(s) = e.downcast_ref::<&str>() { (*s).to_owned() }
-                            else if let Some(s) = e.downcast_ref::<String>() { s.clone() }
-                            else { "<non-string panic>".to_owned() };
-                        emit_panic = json!(msg);
-                        Default::default()
-                    }
-                };
-                for (k, b) in emitted {
-                    let mut loc = serde_json::Map::new();
-                    loc.insert("location".into(), json!(format!("{:?}", k)));
-                    match b.build() {
-                        Err(diags) => {
-                            all_ok = false;
-                            loc.insert("build".into(), json!("err"));
-                            loc.insert(
-                                "diagnostics".into(),
-                                json!(diags.iter().map(|d| d.to_string()).collect::<Vec<_>>()),
-                            );
-                        }
-                        Ok(FlatGraphBuilderOutput { mut flat_graph, .. }) => {
-                            loc.insert("build".into(), json!("ok"));
-                            loc.insert("flat".into(), dump_graph(&flat_graph));
-                            eliminate_extra_unions_tees(&mut flat_graph);
-                            loc.insert("flat_elim".into(), dump_graph(&flat_graph));
-                            match partition_graph(flat_graph) {
-                                Ok(pg) => {
-                                    loc.insert("partition".into(), json!("ok"));
-                                    loc.insert("subgraphs".into(), json!(pg.subgraph_ids().count()));
-                                }
-                                Err(e) => {
-                                    all_ok = false;
-                                    loc.insert("partition".into(), json!("err"));
-                                    loc.insert("diagnostic".into(), json!(e.diagnostic.to_string()));
-                                }
-                            }
-                        }
-                    }
-                    locs.push(Value::Object(loc));
-                }
-                std::mem::forget(ir2);
+                let (ir_json, locs, all_ok, emit_panic) = analyse(built.ir());
                 let mut codegen = false;
                 if all_ok {
                     let deploy: hydro_lang::compile::deploy::DeployFlow<'_, EmbeddedDeploy> =
@@ -226,6 +235,38 @@ fn main() {
         };
     }
     include!("flows_table.rs");
+
+    // two-process flows (network): dumped and code-generated (compiled by rustc), not driven
+    macro_rules! net_flows {
+        ($( $name:ident ( $( $i:ident : $it:ty ),* ) ; )*) => {
+            {$(
+            {
+                let name = stringify!($name);
+                let mut flow = FlowBuilder::new();
+                let process = flow.process::<()>();
+                let p2 = flow.process::<h_hydro_b_flows::P2>();
+                h_hydro_b_flows::$name(&p2, $( process.embedded_input::<$it>(stringify!($i)) ),* );
+                let built = flow.finalize();
+                let (ir_json, locs, all_ok, emit_panic) = analyse(built.ir());
+                let mut codegen = false;
+                if all_ok {
+                    let deploy: hydro_lang::compile::deploy::DeployFlow<'_, EmbeddedDeploy> =
+                        built.with_process(&process, name).with_process(&p2, format!("{name}_p2"));
+                    let code = deploy.generate_embedded("h_hydro_b_flows");
+                    std::fs::write(format!("{out_dir}/{name}.rs"), prettyplease::unparse(&code)).unwrap();
+                    mods.push_str(&format!(
+                        "#[allow(unused_imports, unused_qualifications, non_snake_case, dead_code, clippy::all)]\npub mod {n} {{ include!(concat!(env!(\"OUT_DIR\"), \"/{n}.rs\")); }}\n",
+                        n = name
+                    ));
+                    codegen = true;
+                }
+                let d = json!({"flow": name, "ir": ir_json, "locations": locs, "codegen": codegen, "emit_panic": emit_panic, "net": true});
+                dumps.push((name.to_owned(), d.to_string()));
+            }
+            )*}
+        };
+    }
+    include!("net_flows_table.rs");
 
     std::fs::write(format!("{out_dir}/mods.rs"), mods).unwrap();
     drivers.push_str("fn dispatch(flow: &str, ticks: &[Value]) -> Value {\n    match flow {\n");
